@@ -20,7 +20,7 @@ Definition model_skeletons : list (string * string) := [
   ("client.discover_service",
    "(self,uuid){if isinstance(uuid, str){uuid = UUID(uuid)};starting_handle = 1;services = [];while starting_handle < 65535{response = await self.send_request(att.ATT_Find_By_Type_Value_Request(starting_handle=starting_handle, ending_handle=65535, attribute_type=GATT_PRIMARY_SERVICE_ATTRIBUTE_TYPE, attribute_value=uuid.to_pdu_bytes()));if response is None{return []};if response.op_code == att.Opcode.ATT_ERROR_RESPONSE{if response.error_code != att.ATT_ATTRIBUTE_NOT_FOUND_ERROR{return []};break};for (attribute_handle, end_group_handle) in response.handles_information{if attribute_handle < starting_handle or end_group_handle < attribute_handle{return []};service = ServiceProxy(self, attribute_handle, end_group_handle, uuid, True);services.append(service);self.on_service_discovered(service);if end_group_handle == 65535{return services}};if not response.handles_information{break};starting_handle = response.handles_information[-1][1] + 1};return services}");
   ("client.discover_included_services",
-   "(self,service){starting_handle = service.handle;ending_handle = service.end_group_handle;included_services = [];while starting_handle <= ending_handle{response = await self.send_request(att.ATT_Read_By_Type_Request(starting_handle=starting_handle, ending_handle=ending_handle, attribute_type=GATT_INCLUDE_ATTRIBUTE_TYPE));if response is None{return []};if response.op_code == att.Opcode.ATT_ERROR_RESPONSE{if response.error_code != att.ATT_ATTRIBUTE_NOT_FOUND_ERROR{raise att.ATT_Error(error_code=response.error_code)};break};if not response.attributes{break};for (attribute_handle, attribute_value) in response.attributes{if attribute_handle < starting_handle{return []};group_starting_handle, group_ending_handle = struct.unpack_from('<HH', attribute_value);service_uuid = UUID.from_bytes(attribute_value[4:]);included_service = ServiceProxy(self, group_starting_handle, group_ending_handle, service_uuid, True);included_services.append(included_service)};starting_handle = response.attributes[-1][0] + 1};service.included_services = included_services;return included_services}");
+   "(self,service){starting_handle = service.handle;ending_handle = service.end_group_handle;included_services = [];while starting_handle <= ending_handle{response = await self.send_request(att.ATT_Read_By_Type_Request(starting_handle=starting_handle, ending_handle=ending_handle, attribute_type=GATT_INCLUDE_ATTRIBUTE_TYPE));if response is None{return []};if response.op_code == att.Opcode.ATT_ERROR_RESPONSE{if response.error_code != att.ATT_ATTRIBUTE_NOT_FOUND_ERROR{raise att.ATT_Error(error_code=response.error_code)};break};if not response.attributes{break};for (attribute_handle, attribute_value) in response.attributes{if attribute_handle < starting_handle{return []};group_starting_handle, group_ending_handle = struct.unpack_from('<HH', attribute_value);if len(attribute_value) > 4{service_uuid = UUID.from_bytes(attribute_value[4:])}else{service_uuid = UUID.from_bytes(await self.read_value(group_starting_handle, no_long_read=True))};included_service = ServiceProxy(self, group_starting_handle, group_ending_handle, service_uuid, True);included_services.append(included_service)};starting_handle = response.attributes[-1][0] + 1};service.included_services = included_services;return included_services}");
   ("client.discover_characteristics",
    "(self,uuids,service){uuids = [UUID(uuid) if isinstance(uuid, str) else uuid for uuid in uuids];services = [service] if service else self.services;discovered_characteristics = [];for service in services{starting_handle = service.handle;ending_handle = service.end_group_handle;characteristics = [];while starting_handle <= ending_handle{response = await self.send_request(att.ATT_Read_By_Type_Request(starting_handle=starting_handle, ending_handle=ending_handle, attribute_type=GATT_CHARACTERISTIC_ATTRIBUTE_TYPE));if response is None{return []};if response.op_code == att.Opcode.ATT_ERROR_RESPONSE{if response.error_code != att.ATT_ATTRIBUTE_NOT_FOUND_ERROR{raise att.ATT_Error(error_code=response.error_code)};break};if not response.attributes{break};for (attribute_handle, attribute_value) in response.attributes{if attribute_handle < starting_handle{return []};properties, handle = struct.unpack_from('<BH', attribute_value);characteristic_uuid = UUID.from_bytes(attribute_value[3:]);characteristic = CharacteristicProxy[bytes](self, handle, 0, characteristic_uuid, properties);if characteristics{characteristics[-1].end_group_handle = attribute_handle - 1};characteristics.append(characteristic)};starting_handle = response.attributes[-1][0] + 1};if characteristics{characteristics[-1].end_group_handle = service.end_group_handle};characteristics = [c for c in characteristics if not uuids or c.uuid in uuids];service.characteristics = characteristics;discovered_characteristics.extend(characteristics)};return discovered_characteristics}");
   ("client.discover_descriptors",
@@ -74,7 +74,7 @@ Definition model_skeletons : list (string * string) := [
   ("server.on_att_write_command",
    "(self,bearer,request){attribute = self.get_attribute(request.attribute_handle);if attribute is None{return };if len(request.attribute_value) > GATT_MAX_ATTRIBUTE_VALUE_SIZE{return };try{await attribute.write_value(bearer, request.attribute_value)}except Exception{}}");
   ("gatt.IncludedServiceDeclaration.__init__",
-   "(self,service){declaration_bytes = struct.pack('<HH2s', service.handle, service.end_group_handle, bytes(service.uuid));super().__init__(GATT_INCLUDE_ATTRIBUTE_TYPE, Attribute.READABLE, declaration_bytes);self.service = service}");
+   "(self,service){declaration_bytes = struct.pack('<HH', service.handle, service.end_group_handle);uuid_bytes = service.uuid.to_pdu_bytes();if len(uuid_bytes) == 2{declaration_bytes += uuid_bytes};super().__init__(GATT_INCLUDE_ATTRIBUTE_TYPE, Attribute.READABLE, declaration_bytes);self.service = service}");
   ("gatt.CharacteristicDeclaration.__init__",
    "(self,characteristic,value_handle){declaration_bytes = struct.pack('<BH', characteristic.properties, value_handle) + characteristic.uuid.to_pdu_bytes();super().__init__(GATT_CHARACTERISTIC_ATTRIBUTE_TYPE, Attribute.READABLE, declaration_bytes);self.value_handle = value_handle;self.characteristic = characteristic}")
 ].
@@ -144,6 +144,27 @@ Definition model_consts : list (string * Z) := [
   ("uuid.cccd", 10498);
   ("att.default_mtu", 23)
 ].
+
+(* The same two functions as they are BEFORE the repair of finding D12e (fixes/D12e.patch: the
+   include declaration carries the UUID only for a 16-bit UUID, the client reads the service
+   declaration otherwise).  Model/GattClient.v models the repaired code; a source tree without
+   the repair is recognised as such (and reports the known finding) instead of failing the
+   shape obligation. *)
+Definition pre_D12e_skeletons : list (string * string) := [
+  ("client.discover_included_services",
+   "(self,service){starting_handle = service.handle;ending_handle = service.end_group_handle;included_services = [];while starting_handle <= ending_handle{response = await self.send_request(att.ATT_Read_By_Type_Request(starting_handle=starting_handle, ending_handle=ending_handle, attribute_type=GATT_INCLUDE_ATTRIBUTE_TYPE));if response is None{return []};if response.op_code == att.Opcode.ATT_ERROR_RESPONSE{if response.error_code != att.ATT_ATTRIBUTE_NOT_FOUND_ERROR{raise att.ATT_Error(error_code=response.error_code)};break};if not response.attributes{break};for (attribute_handle, attribute_value) in response.attributes{if attribute_handle < starting_handle{return []};group_starting_handle, group_ending_handle = struct.unpack_from('<HH', attribute_value);service_uuid = UUID.from_bytes(attribute_value[4:]);included_service = ServiceProxy(self, group_starting_handle, group_ending_handle, service_uuid, True);included_services.append(included_service)};starting_handle = response.attributes[-1][0] + 1};service.included_services = included_services;return included_services}");
+  ("gatt.IncludedServiceDeclaration.__init__",
+   "(self,service){declaration_bytes = struct.pack('<HH2s', service.handle, service.end_group_handle, bytes(service.uuid));super().__init__(GATT_INCLUDE_ATTRIBUTE_TYPE, Attribute.READABLE, declaration_bytes);self.service = service}")
+].
+
+Fixpoint override (k : string) (v : string) (l : list (string * string)) : list (string * string) :=
+  match l with
+  | [] => []
+  | (k', v') :: l' => if String.eqb k' k then (k', v) :: l' else (k', v') :: override k v l'
+  end.
+
+Definition model_skeletons_pre_D12e : list (string * string) :=
+  fold_left (fun l kv => override (fst kv) (snd kv) l) pre_D12e_skeletons model_skeletons.
 
 Fixpoint lookup_const (k : string) (l : list (string * Z)) : Z :=
   match l with
@@ -225,6 +246,10 @@ Fixpoint skeletons_eqb (a b : list (string * string)) : bool :=
   | (n1, s1) :: a', (n2, s2) :: b' => andb (andb (String.eqb n1 n2) (String.eqb s1 s2)) (skeletons_eqb a' b')
   | _, _ => false
   end.
+
+(* the source is the modelled code, or the modelled code without the repair D12e *)
+Definition skeletons_match (src : list (string * string)) : bool :=
+  orb (skeletons_eqb src model_skeletons) (skeletons_eqb src model_skeletons_pre_D12e).
 
 Fixpoint consts_eqb (a b : list (string * Z)) : bool :=
   match a, b with
